@@ -7,6 +7,7 @@ Child processes (backticks, `shell()`) and every function outside the concrete s
 import Just.Model.Expr
 import Just.Model.Path
 import Just.Model.Percent
+import Just.Model.Case
 namespace Just.Eval
 open Just
 
@@ -154,6 +155,7 @@ def pureFn (ctx : Ctx) (fn : String) (args : List String) : Option (Except Strin
   | "join", base :: w :: rest => some (.ok (String.ofList (Path.joinPaths base.toList ((w :: rest).map String.toList))))
   | "error", [m] => some (.error m)
   | "is_dependency", [] => some (.ok (if ctx.isDependency then "true" else "false"))
+  | fn, [s] => (Case.apply fn (s.toList.map Char.toNat)).map (fun l => .ok (String.ofList (l.map Char.ofNat)))
   | _, _ => none
 
 def lookupScope (st : St) (x : String) : Option String := st.scope.lookup x
